@@ -193,11 +193,6 @@ func (ex *Ex) callByContract(fr *Frame, st *State, ins ssa.Instruction, callee *
 	}
 	envPre := ex.newEnv(cf, st)
 	envPre.pkgName = ctr.PkgName
-	for i, p := range callee.Params {
-		if i < len(args) {
-			st.regs[p] = args[i] // visible for lookup; harmless: params are unique values
-		}
-	}
 	ord := 0
 	if ins != nil {
 		ord = fr.ordinalOf("call", ins)
@@ -305,6 +300,18 @@ func (ex *Ex) havocAssigns(cf *Frame, st *State, ctr *Contract, args []Val) {
 						st.heap[hk] = ex.FreshVar(hk, ArraySort(SRef, w.mapValSort(ks, vs)))
 					} else {
 						st.globals[g] = ex.FreshVar("G$"+mangle(w.shortName(g)), w.SortOf(t))
+					}
+				}
+			case strings.HasPrefix(item, "mapof "):
+				// content of the map passed as the named parameter
+				pn := strings.TrimSpace(strings.TrimPrefix(item, "mapof "))
+				for _, p := range cf.Fn.Params {
+					if p.Name() == pn {
+						if mt, ok := p.Type().Underlying().(*types.Map); ok {
+							ks, vs := w.SortOf(mt.Key()), w.SortOf(mt.Elem())
+							hk := mapHeapKey(ks, vs)
+							st.heap[hk] = ex.FreshVar(hk, ArraySort(SRef, w.mapValSort(ks, vs)))
+						}
 					}
 				}
 			case strings.HasPrefix(item, "heap "):
@@ -675,10 +682,7 @@ func (ex *Ex) loopEntry(fr *Frame, st *State, li *loopInfo, b, prev *ssa.BasicBl
 		st.Assume(t)
 	}
 	st.Assume(ex.autoInvariant(fr, st, li))
-	saved := fr.CurLoop
-	fr.CurLoop = li
 	ex.execFrom(fr, st, b, firstNonPhi(b))
-	fr.CurLoop = saved
 }
 
 func (ex *Ex) loopBackEdge(fr *Frame, st *State, li *loopInfo, b, prev *ssa.BasicBlock) {
